@@ -36,7 +36,7 @@ def worker(unit, emit):
         return
     rnd = random.Random('%s/%s' % (p['seed'], name))
     corp = lib.corpus(name, mod)
-    bases = lib.pick_bases(name, mod, lib.distinct_compact(name, mod, corp), p['bases'], rnd)
+    bases = lib.pick_bases(name, mod, lib.distinct_compact(name, mod, corp), p['bases'], rnd, corpus_items=corp)
     emit.count('modules')
     opts = ac.option_sets(name, mod)
     xs = []
